@@ -114,6 +114,13 @@ func buildOrCount(c *ShardCtx, text string, gen core.Gen) *core.Built {
 	}
 	if len(b.Problems) > 0 || b.Prefix == nil {
 		c.Res.Counters["emitted_code_problem"]++
+		if len(c.Res.ProblemCases) < 2 {
+			why := "emitted code could not be loaded"
+			if len(b.Problems) > 0 {
+				why = b.Problems[0]
+			}
+			c.Res.ProblemCases = append(c.Res.ProblemCases, ConfCase{Text: strings.Replace(text, "package vgram", "package PKG", 1), Why: "c04:" + loaderProblem + why, Gen: core.Gen{AltEntry: gen.Argv()}})
+		}
 		if len(b.Problems) > 0 && len(c.Res.Counters) < 40 {
 			c.Res.Counters["problem: "+b.Problems[0]]++
 		}
